@@ -73,10 +73,18 @@ def get_docstr(xml_elem):
     return six.decode_string(xml_elem.get("comment", "")) or None
 
 
+def get_required(xml_elem, attribute):
+    value = xml_elem.get(attribute)
+    if value is None:
+        location = "<%s name=%r>" % (xml_elem.tag, xml_elem.get("name"))
+        raise model.ParseError([(location, "missing '%s' attribute" % attribute)])
+    return value
+
+
 def make_constant(xml_elem):
     return model.Constant(
         xml_elem.get("name"),
-        expand_operators(xml_elem.get("value")),
+        expand_operators(get_required(xml_elem, "value")),
         docstring=get_docstr(xml_elem)
     )
 
@@ -108,7 +116,7 @@ def make_enum(xml_elem):
     if len(xml_elem):
         members = []
         for member in xml_elem:
-            value = member.get('value')
+            value = get_required(member, 'value')
             try:
                 int_value = int(value, 0)
                 if int_value < 0:
